@@ -387,12 +387,33 @@ def direct_set_queries() -> list:
     return out
 
 
+def ungrouped_having_queries() -> list:
+    """Whole-table aggregates with a post-aggregation filter but no grouping (rare in the random campaigns): the single
+    aggregate row is returned iff the having-condition holds."""
+    out = []
+    count_b = A.agg('count', A.col('B', 'id'))
+    sum_a = A.agg('sum', A.col('B', 'a'))
+    for bound in (0, 1, 2, 5):
+        for op in ('gt', 'le'):
+            out.append({'stmt': A.query(A.table('B'), [A.alias(count_b, 'n')], having=A.cmp(op, count_b, A.lit(bound))), 'data': _EXTRA_DATA})
+            out.append(
+                {
+                    'stmt': A.query(
+                        A.table('B'), [A.alias(sum_a, 't'), A.alias(count_b, 'n')], where=A.cmp('gt', A.col('B', 'a'), A.lit(1)),
+                        having=A.cmp(op, count_b, A.lit(bound)),
+                    ),
+                    'data': _EXTRA_DATA,
+                }
+            )
+    return out
+
+
 def enumerate_extra(ctx, shard, nshards):
     for k, v in sorted(_EXCLUDED.items()):
         ctx.extra[f'clean_excluded:{k}'] = v
     if shard == 0:
         ctx.campaign = 'parser'
-        for spec in direct_set_queries():
+        for spec in direct_set_queries() + ungrouped_having_queries():
             check_parser(ctx, spec)
 
 
